@@ -156,10 +156,36 @@ def in_region(c, labelled=True):
 # ---------------------------------------------------------------------------
 # syntenies
 # ---------------------------------------------------------------------------
+def _clades_of(tree):
+    """leaf-name lists of every node of a nested-tuple tree."""
+    out = []
+
+    def rec(t):
+        if isinstance(t, str):
+            out.append([t])
+            return [t]
+        ls = []
+        for c in t:
+            ls += rec(c)
+        out.append(ls)
+        return ls
+
+    rec(tree)
+    return out
+
+
 @st.composite
-def leaf_syntenies(draw, leaves, max_fam=4, single_prob=0, allow_inconsistent=True):
+def leaf_syntenies(draw, leaves, max_fam=4, single_prob=0, allow_inconsistent=True, tree=None):
     """leaf -> non-empty list of distinct families.  Returns (mapping,
-    hidden order or None, consistent flag)."""
+    hidden order or None, consistent flag).
+
+    Two content models: independent subsets per leaf (most families are then
+    gained at the root), or - when the object tree is given, half of the
+    cases - clade-structured content: every family is confined to a drawn
+    clade and carried by most of its leaves, so families are gained deep in
+    the tree, subtrees have private families and some leaves lack what their
+    relatives carry (what the inheritance logic of the unordered solvers and
+    the loss runs of the ordered ones feed on)."""
     if single_prob and chance(draw, round(single_prob / 10), 10):
         return {l: ["g0"] for l in leaves}, ["g0"], True
     nf = biased_size(draw, 1, max_fam)
@@ -169,6 +195,23 @@ def leaf_syntenies(draw, leaves, max_fam=4, single_prob=0, allow_inconsistent=Tr
     if allow_inconsistent and nf >= 2:
         consistent = chance(draw, 3, 4)
     out = {}
+    if tree is not None and len(leaves) >= 3 and draw(st.booleans()):
+        clades = _clades_of(tree)
+        content = {l: set() for l in leaves}
+        for f in fams:
+            clade = clades[draw(st.integers(0, len(clades) - 1))]
+            forced = clade[draw(st.integers(0, len(clade) - 1))]
+            for l in clade:
+                if l == forced or chance(draw, 3, 4):
+                    content[l].add(f)
+        for l in leaves:
+            if not content[l]:
+                content[l].add(fams[draw(st.integers(0, nf - 1))])
+            sub = [f for f in order if f in content[l]]
+            if not consistent:
+                sub = list(draw(st.permutations(sub)))
+            out[l] = sub
+        return out, list(order), consistent
     for l in leaves:
         mask = draw(st.integers(1, 2**nf - 1))
         sub = [f for i, f in enumerate(order) if mask >> i & 1]
@@ -200,7 +243,7 @@ def rec_case(draw, max_obj=5, max_sp=4, min_obj=1, min_sp=1, costs="coherent", l
     if labelled:
         syn, order, consistent = draw(
             leaf_syntenies(list(los), max_fam=max_fam, single_prob=single_prob,
-                           allow_inconsistent=allow_inconsistent)
+                           allow_inconsistent=allow_inconsistent, tree=otree)
         )
         if prescribed_root and consistent and len(los) > 1 and chance(draw, 1, 5):
             present = {f for s in syn.values() for f in s}
